@@ -84,25 +84,48 @@ MsgOutcomeTags(sp, out, rem) ==
          ELSE T(out.v = << >>, "empty-errors")
               \o T(sp.perrec /\ Len(out.v) # Len(sp.res.v), "error-count")
 
+\* same outcome from two readers (C02); shape = "msg" | "list" | "item"
+OutSame(shape, a, b) ==
+  /\ a.out.t = b.out.t
+  /\ CASE a.out.t = "ok" /\ shape = "msg"  -> MsgEq(a.out.v, b.out.v) /\ a.rem = b.rem
+       [] a.out.t = "ok" /\ shape = "item" -> AvpEq(a.out.v, b.out.v) /\ a.rem = b.rem
+       [] a.out.t = "err"  -> a.out.v = b.out.v
+       [] a.out.t = "list" -> ItemsEq(a.out.v, b.out.v)
+                              /\ \A i \in 1..Len(a.out.v) : a.out.v[i].t = "err" => a.out.v[i].v = b.out.v[i].v
+       [] OTHER -> TRUE
+
+\* one result (rdr given in the case) or the list `outs` (rdr = "all")
+Runs(ev) == IF Has(ev, "outs") THEN ev.outs ELSE <<ev>>
+
+RECURSIVE ConcatTags(_, _, _)
+ConcatTags(F(_), xs, i) == IF i > Len(xs) THEN << >> ELSE F(xs[i]) \o ConcatTags(F, xs, i + 1)
+
+DiffTags(shape, ev) ==
+  LET rs == Runs(ev) IN
+  T(\E i, j \in 1..Len(rs) : i < j /\ ~OutSame(shape, rs[i], rs[j]), "reader-diff")
+
 VDecode(ev) ==
-  MsgOutcomeTags(DecodeMessage(ev.in, OptsOf(ev)), ev.out, ev.rem)
-    \o ReaderTags(ev, ev.in) \o IoTags(ev)
+  LET sp == DecodeMessage(ev.in, OptsOf(ev))
+      One(r) == MsgOutcomeTags(sp, r.out, r.rem) \o ReaderTags(r, ev.in)
+  IN ConcatTags(One, Runs(ev), 1) \o DiffTags("msg", ev) \o IoTags(ev)
 
 \* AVP::try_read_greedy
 VDecodeAvps(ev) ==
-  LET sp == DecodeAvps(ev.in) IN
-  (IF ~Finished(ev.out) THEN <<"outcome-" \o ev.out.t>>
-   ELSE T(~ItemsEq(sp.items, ev.out.v), "value")
-        \o T(ItemsEq(sp.items, ev.out.v) /\ ~sp.stopped /\ ev.rem # sp.rem, "rem"))
-    \o ReaderTags(ev, ev.in) \o IoTags(ev)
+  LET sp == DecodeAvps(ev.in)
+      One(r) == (IF ~Finished(r.out) THEN <<"outcome-" \o r.out.t>>
+                 ELSE T(~ItemsEq(sp.items, r.out.v), "value")
+                      \o T(ItemsEq(sp.items, r.out.v) /\ ~sp.stopped /\ r.rem # sp.rem, "rem"))
+                \o ReaderTags(r, ev.in)
+  IN ConcatTags(One, Runs(ev), 1) \o DiffTags("list", ev) \o IoTags(ev)
 
 \* the public per-type readers
 VDecodePayload(ev) ==
-  (IF ~IsKnownType(ev.t) \/ ev.t = 39
-     THEN T(ev.out.t # "none", "harness-per-type")
-   ELSE IF ~Finished(ev.out) THEN <<"outcome-" \o ev.out.t>>
-   ELSE T(~ItemEq(DecodePayload(ev.t, ev.in), ev.out), "value"))
-    \o ReaderTags(ev, ev.in) \o IoTags(ev)
+  LET One(r) == (IF ~IsKnownType(ev.t) \/ ev.t = 39
+                   THEN T(r.out.t # "none", "harness-per-type")
+                 ELSE IF ~Finished(r.out) THEN <<"outcome-" \o r.out.t>>
+                 ELSE T(~ItemEq(DecodePayload(ev.t, ev.in), r.out), "value"))
+                \o ReaderTags(r, ev.in)
+  IN ConcatTags(One, Runs(ev), 1) \o DiffTags("item", ev) \o IoTags(ev)
 
 \* messages decoded back to back from one reader (C08)
 RECURSIVE SeqTags(_, _, _, _)
